@@ -18,10 +18,18 @@ EXPLANATION = (
     "bits (from_{le,be}_bytes / integer reads / fields of BinRead structs / integer parameters fed that way) needs a bound: min/clamp, a "
     "dominating ordering comparison on the value (or on the same struct field inside a validate()-style callee that ran before), or an "
     "(in)equality against a length-derived value or a pinning constant. Length-derived values (len(), metadata, seek/stream_position) are "
-    "never tainted. Sufficiency of a bound is not judged; its complete absence is the violation. Index/slice bounds and overflow (Assert "
-    "terminators) are not decided; their count in the closure is reported as not analysed.")
+    "never tainted. Sufficiency of a bound is not judged; its complete absence is the violation. R3 (E-bounds, rules/bounds.py): a relational "
+    "abstract interpretation (linear expressions over immutable value atoms, facts `lin <= 0`, branch / assert refinement, semantic join, "
+    "lengths of slices / arrays / vec![x; n] / sub-slices, Range iteration, min/max/saturating_sub/checked_* models, linear return summaries, "
+    "validator postconditions about struct fields, and preconditions delegated to in-closure callers) tries to PROVE every slice / array / Vec "
+    "index, range index, split_at and copy_from_slice in the closure in bounds. Proven sites are discharged; an unproven site whose index "
+    "derives from parser input (bytes loaded from a [u8], from_*_bytes / read_* results, fields of parsed header structs) is a violation "
+    "unless discharged by exact key with the arithmetic argument written down; unproven sites that do not derive from input are counted as "
+    "not decided. Integer overflow (Assert Overflow) is still not decided.")
 
-ASSUMPTIONS = ["index/slice bounds checks, integer overflow and loop termination are NOT decided (no value-range domain); only explicit panics and unbounded allocations are",
+ASSUMPTIONS = ["integer overflow and loop termination are NOT decided; index bounds are decided only where E-bounds proves them or the index derives from input (R3)",
+               "E-bounds treats integers as mathematical (no wrap-around): an index computed in u8/u32 arithmetic that wraps is outside its model",
+               "a helper's precondition is checked at its in-closure call sites only (external callers of pub helpers are not byte-parser paths)",
                "taint is per (struct, field) / per local; flows through heap containers are not followed"]
 
 ENTRY = re.compile(r"^(parse\w*|from_bytes|read_options|decompress\w*|apply_patch\w*|deserialize|open|load\w*|from_compressed|from_reader|read_\w+|from_data|from_slice|from_str|detect|read)$")
@@ -534,8 +542,133 @@ def param_guard(b, sink, sl, params):
     return False
 
 
+# E-bounds sites that stay unproven although the code is right: the arithmetic the engine cannot do, per site
+DISCHARGED_R3 = {
+    "C02.R3|cascette_formats::patch_index::parser::parse_block2|range|input":
+        "`&data[pos..]` in `for _ in 0..entry_count { .. pos += esize }` after `data.len() >= 5 + entry_count * esize` was checked: pos = 5 + i*esize "
+        "<= 5 + entry_count*esize <= len. The bound is a product of two input values (non-linear), outside the engine's linear facts",
+    "C02.R3|cascette_formats::patch_index::parser::parse_block8|range|input":
+        "same loop as parse_block2 with a different fixed prefix: pos = prefix + i*esize <= prefix + entry_count*esize <= len (checked before the loop)",
+    "C02.R3|cascette_formats::patch_index::parser::parse_patch_index|range|field BlockDescriptor.block_size":
+        "`&data[offset..offset + block_size]` with offset = header.block_offset(i) = header_size + sum of the preceding block sizes: PatchIndexHeader::parse "
+        "(which produced `header` a few lines up) rejects the file unless data.len() >= header_size + sum of ALL block sizes, and parse_patch_index itself "
+        "checks header.data_size == data.len(). A sum over a Vec is outside the engine's linear facts",
+}
+
+
+NARROWING = re.compile(r"\bIndex<.*>>?::index$|::(get|split_at|split_first|split_last|skip|take|filter|take_while|skip_while|step_by|rposition|position|rev)$")
+
+
+def premise_patch_index_total(prog):
+    """premise of the parse_patch_index discharge: PatchIndexHeader::parse compares the input length with header_size + the sum of the
+    sizes of ALL blocks (the summed iterator starts from the whole `blocks` vector: no sub-slice, skip, take, filter on the way)"""
+    bs = [b for b in prog.bodies.values() if b.item == "parse" and (b.self_ty or "").endswith("patch_index::header::PatchIndexHeader") and not b.root]
+    if not bs:
+        return "PatchIndexHeader::parse not found"
+    b = bs[0]
+    sums = [c for c in b.calls if re.search(r"\bIterator>?::sum$", c.orig_name or c.name)]
+    if not sums:
+        return "PatchIndexHeader::parse no longer sums the block sizes"
+    for c in sums:
+        sl = Slice(b, [op_local(c.args[0])], transparent=True) if c.args and op_local(c.args[0]) is not None else None
+        if sl is None:
+            continue
+        narrowed = [x for x in sl.calls if NARROWING.search(x.name) or NARROWING.search(x.orig_name or "")]
+        from_blocks = any("BlockDescriptor" in (b.local_ty(l) or "") for l in sl.locals)
+        if from_blocks and not narrowed:
+            # the sum is compared with the input length
+            tgt = c.dest[0]
+            for i, j, st in b.stmts():
+                r = st["r"]
+                if r["k"] == "Bin" and r["op"] in ("Lt", "Le", "Gt", "Ge"):
+                    ls = [op_local(o) for o in r["o"] if op_local(o) is not None]
+                    if any(tgt in Slice(b, [l], transparent=ARITH).locals for l in ls):
+                        return None
+            return "the sum of the block sizes is no longer compared with the input length"
+        if from_blocks and narrowed:
+            return "the size check sums only part of the block list (%s)" % narrowed[0].name.split("::")[-1]
+    return "no sum over the block descriptors found"
+
+
+DISCHARGE_PREMISES = {
+    "C02.R3|cascette_formats::patch_index::parser::parse_patch_index|range|field BlockDescriptor.block_size": premise_patch_index_total,
+}
+
+
+def strict_input(t, br):
+    if t == "input":
+        return True
+    if t.startswith("field:"):
+        adt = t[6:].rsplit(".", 1)[0]
+        return adt.startswith(("cascette_", "verif_selftest")) and (adt in br or re.search(r"Header|Footer|Descriptor|Info$|Entry$|Block$", adt.split("::")[-1]) is not None)
+    return False
+
+
+def r3_bounds(ctx, ents, cl, krate_prefix="cascette_", discharged=DISCHARGED_R3):
+    from . import bounds
+    rule = "C02.R3"
+    ctx.rule(rule, "every slice / array / Vec index, range index, split_at and copy_from_slice in the parser closure whose index derives from input is proven "
+                   "in bounds by the E-bounds abstract interpretation (or discharged by key with the missing arithmetic)")
+    prog = ctx.prog
+    br = binread_adts(prog)
+    res, req = bounds.analyse_closure(prog, cl, krate_prefix=krate_prefix)
+    cnt = collections.Counter()
+    nd = collections.Counter()
+    for bid in sorted(res):
+        a = res[bid]
+        for sk in a.sinks:
+            if getattr(sk, "delegated", None):
+                cnt["delegated to callers"] += 1
+                continue
+            if sk.proven:
+                cnt["proven"] += 1
+                if sk.kind != "precondition" and cnt["proven"] % 40 == 1:
+                    ctx.ok(rule, [bid, sk.kind, "proven", sk.bb], "in bounds: " + "; ".join(d for d in sk.detail if d)[:160], sk.loc,
+                           sample={"in": bid, "site": sk.loc, "what": sk.what, "goals": [repr(g) for g in sk.goals], "proof": sk.detail})
+                else:
+                    ctx.ok(rule, [bid, sk.kind, "proven", sk.bb, len(sk.goals)], "in bounds", sk.loc, nontrivial=True)
+                continue
+            strict = sorted(t for t in sk.taint if strict_input(t, br))
+            if not strict:
+                cnt["not decided"] += 1
+                nd[bid] += 1
+                continue
+            ctx.saw(a.b)
+            tag = strict[0] if strict[0] == "input" else "field " + strict[0][6:].split("::")[-1]
+            if sk.kind == "precondition":
+                keyl = [bid, "precondition", sk.what.split(":")[0].replace("precondition of ", ""), sk.what.split(": ", 1)[-1].replace(" <= 0", "")]
+            else:
+                keyl = [bid, sk.kind, tag]
+            k0 = ctx._stable("|".join([rule] + [str(x) for x in keyl]))
+            if k0 in discharged:
+                # a discharge that rests on what ANOTHER function checks re-checks that premise on every run
+                why_not = DISCHARGE_PREMISES[k0](prog) if k0 in DISCHARGE_PREMISES else None
+                if why_not is None:
+                    cnt["discharged by key"] += 1
+                    ctx.ok(rule, keyl + ["discharged", sk.bb], "discharged by reading: " + discharged[k0], sk.loc, sample={"site": sk.loc, "reason": discharged[k0]})
+                    continue
+                ctx.bad(rule, keyl + ["premise"],
+                        "%s: %s at %s was discharged because %s - but that premise no longer holds: %s" % (bid, sk.what, sk.loc, discharged[k0][:160], why_not), sk.loc)
+                cnt["violations"] += 1
+                continue
+            cnt["violations"] += 1
+            goals = [repr(g) for g, d in zip(sk.goals, sk.detail) if d is None]
+            ctx.bad(rule, keyl,
+                    "%s: %s at %s is not proven in bounds and its index derives from parser input (%s): no guard on any path establishes %s - input that "
+                    "makes it false panics the caller instead of returning an error" %
+                    (bid, sk.what, sk.loc, ", ".join(strict)[:120], " and ".join("%s <= 0" % g for g in goals)[:200] or "the bound (length unknown to the engine)"),
+                    sk.loc, {"goals": goals, "taint": sorted(sk.taint)})
+    total = sum(cnt.values())
+    ctx.floor(rule, total, 400, "index / range / split / copy sites in the parser closure")
+    ctx.floor(rule, cnt["proven"], 380, "sites proven in bounds")
+    ctx.ok(rule, ["summary"], "sites scanned", None, sample={"sites": dict(cnt), "helper_preconditions": {ctx._stable(k): [repr(x) for x in v] for k, v in sorted(req.items())},
+                                                           "not_decided_by_function": {ctx._stable(k): v for k, v in nd.most_common(12)}})
+    ctx.info("C02.R3 E-bounds: %s; %d helper precondition set(s)" % (dict(cnt), len(req)))
+
+
 def run(ctx):
     ents, cl = entries_and_closure(ctx)
+    r3_bounds(ctx, ents, cl)
     r1_no_panic(ctx, ents, cl)
     r2_alloc(ctx, ents, cl)
 
